@@ -12,3 +12,5 @@ def run(prog, rep):
     r_bfs.run_filters(prog, rep)
     from ..rules import r_key as _rk4
     _rk4.run_handles_only(prog, rep)
+    from ..rules import r_order as _rov
+    _rov.run_lookup_via(prog, rep)
